@@ -66,6 +66,67 @@ def rule_globals(rep: Report, repo: Repo) -> None:
                 containers.append(f'{rel.split("/")[-1]}:{tgt}')
     rep.check(containers == ['fj_parser.py:_stl_prefix_cache', 'ops.py:INITIAL_ARGS'] or containers == ['fj_parser.py:_stl_prefix_cache'], 'C13.GLOBALS',
               'module-level containers', str(containers), PARSER, expected='only the stl prefix cache (keyed, see C13.CACHE-KEY) and the empty INITIAL_ARGS')
+    # every module-level container of the pipeline (also the UPPER_CASE "constants"): inside functions it is only READ in place -
+    # subscripted, tested with `in`, iterated, measured, copied, formatted, or asked through a read-only method. A store into it,
+    # a mutating method, or any use that lets the object itself escape (returned, bound to another name / attribute, handed to a
+    # call that is not a copying builtin) makes one assembly able to leave something behind for the next.
+    READ_METHODS = {'get', 'items', 'keys', 'values', 'copy', 'index', 'count', 'join', 'union', 'intersection', 'difference', 'issubset', 'issuperset'}
+    COPYING = {'len', 'sorted', 'list', 'dict', 'tuple', 'set', 'frozenset', 'sum', 'min', 'max', 'any', 'all', 'str', 'repr', 'enumerate', 'zip', 'iter',
+               'reversed', 'bool', 'isinstance', 'print', 'map', 'filter'}
+    ESCAPE_ALLOW = {('_stl_prefix_cache',): 'the keyed parse cache: written on purpose, judged by C13.CACHE-KEY / CACHE-ALIAS',
+                    ('INITIAL_ARGS',): 'the (empty) argument list of the main macro: handed to resolve_macro_aux, which only zips it with the parameters'}
+    all_containers: Dict[str, str] = {}
+    for rel in PIPELINE:
+        for st in repo.mod(rel).body:
+            tgt, val = None, None
+            if isinstance(st, ast.Assign) and isinstance(st.targets[0], ast.Name):
+                tgt, val = st.targets[0].id, st.value
+            elif isinstance(st, ast.AnnAssign) and isinstance(st.target, ast.Name) and st.value is not None:
+                tgt, val = st.target.id, st.value
+            is_cont = isinstance(val, (ast.Dict, ast.List, ast.Set, ast.ListComp, ast.DictComp, ast.SetComp)) or (
+                isinstance(val, ast.Call) and dotted(val.func).split('.')[-1] in ('dict', 'list', 'set', 'defaultdict', 'deque', 'OrderedDict', 'Counter'))
+            if tgt and is_cont and not tgt.startswith('__'):
+                all_containers[tgt] = rel
+    escapes = []
+    n_uses = 0
+    from ..pyfacts import parent as _parent
+    for rel in PIPELINE:
+        for q, fn in _functions(repo, rel):
+            shadow = set(param_names(fn)) | {n.id for n in walk_no_nested(fn) if isinstance(n, ast.Name) and isinstance(n.ctx, ast.Store)
+                                             and not any(isinstance(g_, ast.Global) and n.id in g_.names for g_ in ast.walk(fn))}
+            for n in walk_no_nested(fn):
+                if not (isinstance(n, ast.Name) and n.id in all_containers and n.id not in shadow):
+                    continue
+                if (n.id,) in ESCAPE_ALLOW:
+                    continue
+                n_uses += 1
+                par = _parent(n)
+                okuse = False
+                what = type(par).__name__
+                if isinstance(n.ctx, (ast.Store, ast.Del)):
+                    what = 're-bound'
+                elif isinstance(par, ast.Subscript) and par.value is n:
+                    okuse = isinstance(par.ctx, ast.Load)
+                    what = 'subscript store' if not okuse else what
+                elif isinstance(par, ast.Compare) and n in par.comparators and all(isinstance(o, (ast.In, ast.NotIn)) for o in par.ops):
+                    okuse = True
+                elif isinstance(par, (ast.For, ast.comprehension)) and par.iter is n:
+                    okuse = True
+                elif isinstance(par, ast.Attribute) and par.value is n:
+                    gp = _parent(par)
+                    okuse = par.attr in READ_METHODS and isinstance(gp, ast.Call) and gp.func is par
+                    what = f'.{par.attr}'
+                elif isinstance(par, ast.Call) and n in par.args and dotted(par.func) in COPYING:
+                    okuse = True
+                elif isinstance(par, ast.FormattedValue):
+                    okuse = True
+                elif isinstance(par, ast.Starred):
+                    okuse = True
+                if not okuse:
+                    escapes.append(f'{rel.split("/")[-1]}:{q}: {n.id} ({what}) line {n.lineno}')
+    rep.check(not escapes, 'C13.GLOBALS', 'module-level containers:read-only', f'{n_uses} uses of {len(all_containers)} containers; '
+              + (f'not read-only: {escapes[:3]}' if escapes else 'all read in place'), PARSER,
+              expected='module-level containers are only read in place (reasoned exceptions: ' + ', '.join(k[0] for k in ESCAPE_ALLOW) + ')')
     ia = [n for rel in PIPELINE for n in ast.walk(repo.mod(rel)) if isinstance(n, ast.Attribute) and isinstance(n.value, ast.Name) and n.value.id == 'INITIAL_ARGS'
           and n.attr in ('append', 'extend', 'insert', 'pop', 'clear')]
     rep.check(not ia, 'C13.GLOBALS', 'INITIAL_ARGS never mutated', f'{len(ia)} mutating uses', OPS)
